@@ -39,6 +39,9 @@ def check_case(ctx, case):
     ctx.note("chain={}".format(len(case["mods"])))
     ctx.case({k: v for k, v in case.items() if k != "info"}, nontrivial=f[0] == "ok")
     ctx.op(op, case, reply=reply)
+    if ctx.evaluations % 4 == 0:
+        # the same objects over time: looked at before assembling, assembled twice
+        asm.lifecycle(ctx, {k: v for k, v in case.items() if k != "info"}, pretouch=True)
     # the structures the classes were matched with are the model's closed forms
     e = asm.enzyme(case["enz"])
     ctx.op(("STRUCT", "M", e, None, None), None)
